@@ -125,6 +125,7 @@ class VirtualLoop(asyncio.SelectorEventLoop):
         self.next_port = 40000
         self.hosts: dict[str, str] = {}
         self.on_transport: Callable[[RecordingTransport], None] | None = None
+        self.ipv6_available = True      # False: binding a "::" socket fails with EAFNOSUPPORT (host without IPv6)
         self.set_exception_handler(self._on_exception)
 
     def time(self) -> float:
@@ -143,8 +144,13 @@ class VirtualLoop(asyncio.SelectorEventLoop):
 
     async def create_datagram_endpoint(self, protocol_factory: Callable, local_addr: tuple | None = None,
                                        remote_addr: tuple | None = None, **kwargs: Any) -> tuple:
+        # like a real loop, opening a socket suspends the caller twice: while the local address is resolved and while
+        # waiting for connection_made; a cancellation may arrive at either point (at the second the socket is closed)
+        await asyncio.sleep(0)
         protocol = protocol_factory()
         host, port = (local_addr or ("0.0.0.0", 0))[:2]
+        if ":" in host and not self.ipv6_available:
+            raise OSError(97, "Address family not supported by protocol")
         if not port:
             self.next_port += 1
             port = self.next_port
@@ -153,6 +159,11 @@ class VirtualLoop(asyncio.SelectorEventLoop):
         if self.on_transport is not None:
             self.on_transport(transport)
         self.call_soon(protocol.connection_made, transport)
+        try:
+            await asyncio.sleep(0)
+        except BaseException:
+            transport.close()
+            raise
         return transport, protocol
 
     def run_in_executor(self, executor: Any, func: Callable, *args: Any) -> asyncio.Future:  # type: ignore[override]
